@@ -81,12 +81,7 @@ Theorem C13_fresh_caches_ok :
          (T F C : Type) (is_coinbase : T -> bool) (wtxid : T -> Z) (exec_key : Z -> F -> Z) (script_runs : T -> F -> C -> list run) (committed : T -> C),
   2 <= n < 2 ^ 32 ->
   vstate_ok (compute_hashes n) oracle sigkey T F C is_coinbase wtxid exec_key script_runs committed (mk_vstate (cuckoo_setup n) (cuckoo_setup n)).
-Proof.
-  intros n oracle sigkey T F C is_coinbase wtxid exec_key script_runs committed Hn.
-  unfold vstate_ok, sig_ok. cbn [vs_sig vs_script].
-  split; [split; [apply setup_wf | split; [apply setup_locs_ok; exact Hn | apply setup_inv]]|].
-  split; [apply setup_wf | split; [apply setup_locs_ok; exact Hn | apply setup_inv]].
-Qed.
+Proof. exact fresh_caches_ok. Qed.
 Print Assumptions C13_fresh_caches_ok.
 
 Theorem C13_view_consistency_needed_refuted :
